@@ -75,9 +75,20 @@ func c13R2(p *Prog, r *Report) {
 			tstr := types.TypeString(info.TypeOf(ta.Type), nil)
 			key := p.anchorFor(fi, fnPartsOf(mapKeys(auditedTypeAsserts))) + "|" + tstr
 			site := fi.Name() + "/assert " + tstr
+			// a library invariant, wherever it is used: (*types.Func).Type() is always a *types.Signature
+			funcType := false
+			if call, isCall := ast.Unparen(ta.X).(*ast.CallExpr); isCall && tstr == "*go/types.Signature" {
+				if sel, isSel := ast.Unparen(call.Fun).(*ast.SelectorExpr); isSel && sel.Sel.Name == "Type" && len(call.Args) == 0 {
+					if rt := info.TypeOf(sel.X); rt != nil && isNamed(derefType(rt), "go/types", "Func") {
+						funcType = true
+					}
+				}
+			}
 			if why, ok := auditedTypeAsserts[key]; ok {
 				r.OK(site, p.PosStr(ta.Pos()), "audited: "+why)
 				r.Tables = append(r.Tables, "C13.R2a "+key+" — "+why)
+			} else if funcType {
+				r.OK(site, p.PosStr(ta.Pos()), "the type of a *types.Func is always a *types.Signature (go/types invariant)")
 			} else {
 				r.Bad(site, p.PosStr(ta.Pos()), "single-value type assertion can panic; use the comma-ok form or a type switch")
 			}
@@ -313,6 +324,36 @@ func nonNegative(v ssa.Value, use *ssa.BasicBlock, depth int) (bool, string) {
 		if obj == nil || idx < 0 {
 			return false, "parameter of an anonymous function"
 		}
+		// an early exit for the non-positive values: `if l <= 0 { return … }` (or < 0, < 1) dominates the use
+		if use != nil {
+			nonPos := func(c ssa.Value) bool {
+				b, ok := c.(*ssa.BinOp)
+				if !ok || b.X != ssa.Value(x) {
+					return false
+				}
+				k, ok := b.Y.(*ssa.Const)
+				if !ok || k.Value == nil {
+					return false
+				}
+				n, _ := constant.Int64Val(k.Value)
+				return (b.Op == token.LEQ && n >= -1) || (b.Op == token.LSS && n >= 0)
+			}
+			pos := func(c ssa.Value) bool {
+				b, ok := c.(*ssa.BinOp)
+				if !ok || b.X != ssa.Value(x) {
+					return false
+				}
+				k, ok := b.Y.(*ssa.Const)
+				if !ok || k.Value == nil {
+					return false
+				}
+				n, _ := constant.Int64Val(k.Value)
+				return (b.Op == token.GEQ && n >= 0) || (b.Op == token.GTR && n >= -1)
+			}
+			if dominatedByEdge(use, false, nonPos) || dominatedByEdge(use, true, pos) {
+				return true, "the function returns early for negative values of " + x.Name()
+			}
+		}
 		return false, "parameter " + x.Name() + " of " + funcKey(obj) + " is not clamped before use"
 	}
 	return false, "value " + v.String() + " may be negative"
@@ -463,6 +504,12 @@ func lengthFact(p *Prog, fi *FuncInfo, base ast.Expr, need int64, stack []ast.No
 	info := fi.Pkg.TypesInfo
 	bs := exprString(base)
 	lenOf := func(e ast.Expr) bool {
+		// a local that merely names the length (`count := len(x)`) stands for it
+		if lid, isID := ast.Unparen(e).(*ast.Ident); isID {
+			if def := localDef(info, fi.Decl, info.ObjectOf(lid)); def != nil {
+				e = def
+			}
+		}
 		call, ok := ast.Unparen(e).(*ast.CallExpr)
 		if !ok || len(call.Args) != 1 {
 			return false
@@ -911,7 +958,7 @@ func c13R4(p *Prog, r *Report) {
 			} else {
 				r.OK(site, pos, "(b) unfolds named types under a visited set map[*types.Named]… that is consulted, extended and handed unchanged to every call inside the cycle")
 			}
-		case len(comp) == 1 && ssaName(nodes[comp[0]]) == "xtype.ZeroValue":
+		case cycleInRegion(p, members, "xtype.ZeroValue"):
 			if bad := zeroValueSingleStep(p); bad != "" {
 				r.Bad(site, pos, bad)
 			} else {
@@ -1047,7 +1094,13 @@ func zeroValueSingleStep(p *Prog) string {
 	// every recursive call receives (*types.Named).Underlying() of the named type at hand — one unfolding step
 	// whose result is never a *types.Named again — whatever the surrounding if/switch looks like
 	bad := ""
-	allInstrs(sf, false, func(in ssa.Instruction) {
+	var region []*ssa.Function
+	for _, rf := range p.Region("xtype.ZeroValue") {
+		if hf := p.SSAFunc(rf); hf != nil {
+			region = append(region, hf)
+		}
+	}
+	forAllInstrs(region, func(in ssa.Instruction) {
 		c, ok := in.(*ssa.Call)
 		if !ok || c.Call.StaticCallee() != sf || len(c.Call.Args) != 1 {
 			return
@@ -1712,4 +1765,27 @@ func mapFieldSkipFact(p *Prog) string {
 		return "the ignoreMissing continuation is no longer recognisable in mapField (IgnoreMissing read / *xtype.NoMatchError test not found on a path that sets skip)"
 	}
 	return ""
+}
+
+// cycleInRegion: the cycle consists of the anchor function and private helpers of its region only.
+func cycleInRegion(p *Prog, members map[*ssa.Function]bool, anchor string) bool {
+	afi := p.Func(anchor)
+	if afi == nil {
+		return false
+	}
+	hasAnchor := false
+	for fn := range members {
+		o, ok := fn.Object().(*types.Func)
+		if !ok {
+			return false
+		}
+		fi := p.Func(funcKey(o))
+		if fi == nil || !p.inRegion(anchor, fi) {
+			return false
+		}
+		if fi == afi {
+			hasAnchor = true
+		}
+	}
+	return hasAnchor
 }
